@@ -111,7 +111,13 @@ pub fn run(cfg: &Cfg) {
         }
         Entry { label: keyid_hex(k.public()), sig, valid_under_label: ok, class: if ok { "valid" } else { "corrupted" } }
     };
-    let symbols: Vec<Entry> = vec![mk(a, true), mk(a, false), mk(b, true), mk(b, false), mk(c, true), mk(c, false), mk(u, true)];
+    // a genuine signature of an authorized key listed under an id that is not its maker's: the
+    // stranger's id, and an id no key has
+    let relabel = |k: &KeyInfo, label: String| -> Entry {
+        Entry { label, sig: valid_sig(&meta, k), valid_under_label: false, class: "relabelled" }
+    };
+    let symbols: Vec<Entry> = vec![mk(a, true), mk(a, false), mk(b, true), mk(b, false), mk(c, true), mk(c, false), mk(u, true),
+        relabel(a, keyid_hex(u.public())), relabel(b, "ab".repeat(32))];
     let auth_sets: Vec<Vec<&KeyInfo>> = vec![vec![], vec![a], vec![a, b], vec![a, b, c], vec![a, a, b], vec![c, b, a]];
     let thresholds = [0u32, 1, 2, 3, 5, u32::MAX];
     let max_len = if cfg.thorough { 4 } else { 3 };
@@ -141,7 +147,7 @@ pub fn run(cfg: &Cfg) {
         }
     }
     sink.note(&format!(
-        "systematic scope: all signature lists of length <= {} over 7 entry kinds (valid/corrupted for 3 keys, valid by a stranger) x {} authorized sets (incl. empty, duplicate, reordered) x thresholds {:?}: {} verifications",
+        "systematic scope: all signature lists of length <= {} over 9 entry kinds (valid/corrupted for 3 keys, valid by a stranger, a genuine signature relabelled with the stranger's id / with an id no key has) x {} authorized sets (incl. empty, duplicate, reordered) x thresholds {:?}: {} verifications",
         max_len,
         auth_sets.len(),
         thresholds,
@@ -177,6 +183,7 @@ pub fn run(cfg: &Cfg) {
                     let same = other_meta == meta;
                     Entry { label: keyid_hex(k.public()), sig: valid_sig(&other_meta, k), valid_under_label: same, class: "other-content" }
                 }
+                6 if r.chance(1, 2) => Entry { label: hex(&r.bytes(32)), sig: valid_sig(&meta, k), valid_under_label: false, class: "relabelled" },
                 _ => Entry { label: hex(&r.bytes(32)), sig: r.bytes(64), valid_under_label: false, class: "unknown-id" },
             };
             sink.stat(&format!("entry/{}", e.class));
